@@ -108,7 +108,14 @@ class USBIsochronousStreamOutEndpoint(Elaboratable):
 
         sufficient_space         = (fifo.space_available >= self._max_packet_size)
 
-        okay_to_receive          = targeting_endpoint & sufficient_space
+        # Whether a packet fits is decided once, on its first byte, and latched for its remaining bytes:
+        # space_available shrinks with every uncommitted byte we write, so re-evaluating it per byte
+        # truncates packets that arrive while the FIFO is partly full.
+        packet_fits              = Signal()
+        with m.If(rx.next & rx.valid & rx_first):
+            m.d.usb += packet_fits.eq(sufficient_space)
+
+        okay_to_receive          = targeting_endpoint & Mux(rx_first, sufficient_space, packet_fits)
         data_is_lost             = okay_to_receive & rx.next & rx.valid & fifo.full
 
         full_packet              = rx_cnt == self._max_packet_size - 1
